@@ -54,6 +54,16 @@ def eof_universe():
         progs.append((("case", False, ((None, (y,), (("hook", "h"),)), (None, ("else",), (("hook", "g"),)))),))
         progs.append((("optional", (("match", y),)), ("match", L("a")), ("match", ENDM)))
         progs.append((("loop", None, (("case", False, ((None, (y,), ()), (None, (L("ab"),), (("break", None),)))),)), ("hook", "h")))
+    # end-of-input taking an edge whose action redirects: a conditional break on a case's else path, an append that overflows after an `end` pattern
+    n1 = ("set", "n", ("bin", "+", ("var", "n"), ("num", 1)))
+    ge2 = ("bin", ">=", ("var", "n"), ("num", 2))
+    for post in ((("match", ENDM), ("set", "m", ("num", 1)), ("hook", "h")), (("match", ENDM), ("finish", "F")), (("hook", "h"), ("match", ENDM))):
+        progs.append((("loop", None, (("case", False, ((None, (L("a"),), (n1,)), (None, ("else",), (("if", ((ge2, (("break", None),)),), None), ("match", L("b")))))),)),) + post)
+        progs.append((("loop", None, (("match", L("a")), n1, ("if", ((ge2, (("break", None),)),), None), ("optional", (("match", L("b")),)))),) + post)
+    for handler in ((("hook", "g"),), (("hook", "g"), ("finish", "G")), (("delete", "s"), ("hook", "g"))):
+        progs.append((("try", (("setstr", "s", b"ab"), ("match", L("a")), ("match", ENDM), ("appendc", "s", ("num", 33)), ("hook", "h")), ("outofspace",), handler), ("finish", "F")))
+        progs.append((("try", (("append", "s", ("re", U.q("a", "+"))), ("match", ENDM), ("appendc", "s", ("num", 33)), ("hook", "h")), ("outofspace",), handler), ("hook", "h")))
+        progs.append((("try", (("append", "s", ("re", U.q("a", "+"))), ("case", False, ((None, (ENDM,), (("appendc", "s", ("num", 33)), ("hook", "h"))), (None, (L("b"),), ())))), ("outofspace",), handler), ("hook", "h")))
     progs.append((("match", ENDM),))
     progs.append((("match", ENDM), ("hook", "h")))
     progs.append((("hook", "h"), ("match", ENDM)))
